@@ -113,6 +113,19 @@ def spellings(out, rnd, cs):
                      lambda p: "sign(hex_packet=%r) and other spellings" % p[:60], nontrivial=lambda p: len(p) >= 2 and wellformed(p))
 
 
+def frozen_clock(out, rnd, cs):
+    """the wall clock stands still (a coarse clock, a frozen test clock) or steps backwards between calls: the signature is a function of the text alone"""
+    import time_machine
+    sample = rnd.sample(cs, min(len(cs), 200)); io = []
+    with time_machine.travel(1_800_000_000, tick=False) as trav:
+        for k, p in enumerate(sample):
+            a = impl(p); b = impl(p)
+            if k % 3 == 0: trav.shift(-rnd.choice([1, 61, 3600]))
+            io.append(a if a == b else "first %s, again at the same instant %s" % (a[-14:], b[-14:]))
+    lib.differential(out, "clock-standing-still-or-stepping-back-between-calls", sample, io, lib.run_model([lib.req("sign", p) for p in sample]),
+                     lib.run_model([lib.req("sign_spec", p) for p in sample]), lambda p: "sign(%r) twice at one instant" % p[:60], nontrivial=lambda p: len(p) >= 2 and wellformed(p))
+
+
 def after_length_stamp(out, rnd):
     """the signer is handed what the library's own length setter returned (the way the api calls it): the signature is that of the
     text it was handed, and the same as for a plain copy of that text"""
@@ -176,6 +189,7 @@ def run(tier, rnd, out):
     run_cases("sign", cs, out)
     spellings(out, rnd, cs)
     after_length_stamp(out, rnd)
+    frozen_clock(out, rnd, cs)
     other_types_then_str(out, rnd)
     threads(out, rnd, 20000 if tier == "quick" else 300000)
     # the model's table-driven CRC against binascii.crc_hqx directly (the external call the model replaces)
